@@ -263,6 +263,7 @@ def normalise(tree: ast.AST, rel: str, src: Optional[str] = None) -> int:
                 n_canon += canon.expand_next_search(fn)
             ref_nested = {n.name for n in ast.walk(ast.parse(rsrc)) if isinstance(n, ast.FunctionDef)} if rsrc else set()
             n_canon += canon.inline_local_functions(fn, keep=ref_nested)
+            n_canon += canon.drop_self_assignments(fn)
             n_canon += canon.drop_redundant_rebindings(fn)
         except Exception:
             if debug:
